@@ -316,7 +316,24 @@ def all_variants():
     out.append({"kind": "save", "format": "json"})
     # histories of --print_config requests on one parser object (last: the flags of one request must not reach the next)
     out.append({"kind": "print_config_history", "seq": ["skip_null", "", "skip_default"]})
+    # histories of skip_default dumps on one parser object whose defaults change in between WITHOUT set_defaults
+    # (default config file rewritten / replaced through the setter, action.default reassigned)
+    for change in HISTORY_CHANGES:
+        out.append({"kind": "skip_default_history", "format": "yaml", "skip_default": True, "change": change})
+    # multi-file save with sub-config files (values carrying __path__) after overrides, next to the files and elsewhere
+    out.append({"kind": "save_subconfig", "format": "yaml"})
+    out.append({"kind": "save_subconfig", "format": "json"})
     return out
+
+
+HISTORY_CHANGES = ("file", "files_setter", "action")
+
+
+def pick_variants(variants, rng):
+    """per generated case: every single-step variant, and one of the history variants (they build their own parser)"""
+    hist = [v for v in variants if v["kind"] == "skip_default_history"]
+    keep = rng.choice(hist) if hist else None
+    return [v for v in variants if v["kind"] != "skip_default_history" or v is keep]
 
 
 def variant_format(variant):
@@ -416,6 +433,10 @@ def run_variant(p, cfg0, ref, variant, case, tmpdir):
                     return {"stage": "compare", "error": "Different", "detail": first_diff(ref, got) + where, "text": text[:600]}
             if back is None:
                 return None
+        elif kind == "skip_default_history":
+            return history_skip_default(case, variant, tmpdir)
+        elif kind == "save_subconfig":
+            return save_subconfig(p, ref, variant, case, tmpdir)
         elif kind == "save":
             path = os.path.join(tmpdir, "saved." + ("json" if variant["format"] == "json" else "yaml"))
             try:
@@ -435,6 +456,141 @@ def run_variant(p, cfg0, ref, variant, case, tmpdir):
     got = canon(back)  # snapshot immediately
     if got != ref:
         return {"stage": "compare", "error": "Different", "detail": first_diff(ref, got), "text": (text or "")[:600]}
+    return None
+
+
+def history_skip_default(case, variant, tmpdir):
+    """A history on ONE parser object: a skip_default dump; then the defaults change without set_defaults (the default
+    config file is rewritten / another one is set, or action.default is assigned); then a configuration that spells out
+    the OLD defaults is parsed, dumped with skip_default and re-parsed.  Every dump of the history must re-parse to the
+    configuration it was made from."""
+    from jsonargparse import ArgumentError
+
+    p = build_parser(case["spec"])
+    fmt, change = variant["format"], variant["change"]
+
+    def roundtrip(cfg, where):
+        ref = canon(cfg)
+        try:
+            text = p.dump(cfg.clone(), format=fmt, skip_none=False, skip_default=True)
+        except Exception as ex:  # noqa: BLE001
+            return {"stage": "dump", "error": excname(ex), "detail": str(ex)[:300] + where}
+        try:
+            back = p.parse_string(text)
+        except ArgumentError as ex:
+            return {"stage": "reparse", "error": excname(ex), "detail": str(ex)[:300] + where, "text": text[:600]}
+        got = canon(back)
+        if got != ref:
+            return {"stage": "compare", "error": "Different", "detail": first_diff(ref, got) + where, "text": text[:600]}
+        return None
+
+    def write(path, text):
+        with open(path, "w", encoding="utf-8", newline="") as f:
+            f.write(text)
+
+    try:
+        old_text = p.dump(p.get_defaults(), format="yaml", skip_none=True)      # the defaults, spelled out
+    except Exception as ex:  # noqa: BLE001
+        raise Skip("the defaults cannot be dumped") from ex
+    dfile = os.path.join(tmpdir, "defaults_%s.yaml" % change)
+    if change == "file":
+        write(dfile, old_text)
+        p.default_config_files = [dfile]
+    try:
+        cfg_a = p.parse_object(dec(nest(copy.deepcopy(case["obj"]))))
+    except ArgumentError as ex:
+        raise Skip("not accepted with the default config file in place") from ex
+    f = roundtrip(cfg_a, " (first skip_default dump of the history)")
+    if f is not None:
+        return f
+    try:
+        new_text = p.dump(cfg_a.clone(), format="yaml", skip_none=True)
+    except Exception as ex:  # noqa: BLE001
+        raise Skip("plain dump fails (other variant)") from ex
+    if change == "file":
+        write(dfile, new_text)
+    elif change == "files_setter":
+        write(dfile, new_text)
+        p.default_config_files = [dfile]
+    else:
+        for action in p._actions:
+            if action.dest in ("help", "cfg") or action.dest not in cfg_a:
+                continue
+            val = cfg_a[action.dest]
+            if type(val).__name__ == "Namespace":
+                continue
+            action.default = copy.deepcopy(val)
+    try:
+        cfg_b = p.parse_string(old_text)
+    except ArgumentError as ex:
+        raise Skip("the old defaults are not accepted on top of the new ones") from ex
+    return roundtrip(cfg_b, " (history on one parser: skip_default dump, then the defaults changed through %s, then a configuration "
+                            "spelling out the old defaults)" % {"file": "the rewritten default config file", "files_setter": "parser.default_config_files = [...]",
+                                                               "action": "action.default = ..."}[change])
+
+
+def save_subconfig(p, ref, variant, case, tmpdir):
+    """Group-valued arguments given as sub-config FILES (their values carry __path__), overridden afterwards on the
+    command line, then save(multifile) into another directory and into the directory that holds the sub-config files,
+    each followed by parse_path."""
+    from jsonargparse import ArgumentError
+    from jsonargparse import _loaders_dumpers as ld
+
+    spec, obj = case["spec"], case["obj"]
+    if has_marker(obj):
+        raise Skip("object-valued input has no command-line spelling")
+    groups = [a for a in spec["args"] if a["type"]["t"] == "dataclass" and isinstance(obj.get(a["name"]), dict)]
+    if not groups:
+        raise Skip("no group-valued argument")
+    ext = "json" if variant["format"] == "json" else "yaml"
+    work = os.path.join(tmpdir, "sub_" + ext)
+    other = os.path.join(tmpdir, "sub_" + ext + "_other")
+    os.makedirs(work, exist_ok=True)
+    os.makedirs(other, exist_ok=True)
+    argv = []
+    for a in spec["args"]:
+        name = a["name"]
+        if name not in obj:
+            continue
+        if a in groups:
+            # content of the file: the group with every field that has a default set back to it
+            file_obj = {}
+            for f in a["type"]["fields"]:
+                if "default" in f:
+                    file_obj[f["name"]] = copy.deepcopy(f["default"])
+                elif f["name"] in obj[name]:
+                    file_obj[f["name"]] = copy.deepcopy(obj[name][f["name"]])
+            try:
+                cfgx = p.parse_object(dec(nest({name: file_obj})))
+                sub_text = ld.dumpers["yaml"](ld.loaders["yaml"](p.dump(cfgx, format="yaml", skip_none=False))[name])
+            except Exception as ex:  # noqa: BLE001
+                raise Skip("no sub-config content for this group") from ex
+            sub = os.path.join(work, name + ".yaml")
+            with open(sub, "w", encoding="utf-8", newline="") as f:
+                f.write(sub_text)
+            argv.append("--%s=%s" % (name, sub))
+        argv += to_argv({"args": [a]}, obj)
+    try:
+        cfg1 = p.parse_args(argv)
+    except (ArgumentError, SystemExit) as ex:
+        raise Skip("argv rejected") from ex
+    if canon(cfg1) != ref:
+        raise Skip("argv gives another configuration")
+    for d, where in ((other, "another directory"), (work, "the directory that holds the sub-config files")):
+        path = os.path.join(d, "main." + ext)
+        where = " (sub-config files %s, overridden on the command line, saved multi-file into %s)" % ([a["name"] + ".yaml" for a in groups], where)
+        try:
+            p.save(cfg1.clone(), path, format=variant["format"], skip_none=False, overwrite=True)
+        except Exception as ex:  # noqa: BLE001
+            return {"stage": "dump", "error": excname(ex), "detail": str(ex)[:300] + where}
+        try:
+            back = p.parse_path(path)
+        except ArgumentError as ex:
+            return {"stage": "reparse", "error": excname(ex), "detail": str(ex)[:300] + where}
+        got = canon(back)
+        if got != ref:
+            files = {n: open(os.path.join(d, n), encoding="utf-8").read()[:200] for n in sorted(os.listdir(d))}
+            return {"stage": "compare", "error": "Different", "detail": first_diff(ref, got) + where, "text": json.dumps(files)[:600]}
     return None
 
 
@@ -904,7 +1060,37 @@ def comments_neutral(cfg0):
     return True
 
 
+PLAIN_LEAF = (type(None), bool, int, float, str)
+
+
+def _nonplain_leaf(v, in_container=False):
+    """a typed value that the raw dumpers cannot write as it is: Enum member, set, tuple, registered-type object, Path,
+    instance of a restricted type ... and a Namespace / dataclass value inside a list or dict (as_dict only converts
+    namespaces nested directly in namespaces)"""
+    if isinstance(v, dict):
+        return any(type(k) not in PLAIN_LEAF or _nonplain_leaf(x, True) for k, x in v.items())
+    if type(v) is list:
+        return any(_nonplain_leaf(x, True) for x in v)
+    if type(v).__name__ == "Namespace" or (dataclasses.is_dataclass(v) and not isinstance(v, type)):
+        return in_container or any(_nonplain_leaf(x) for k, x in vars(v).items() if not k.startswith("__"))
+    return type(v) not in PLAIN_LEAF
+
+
+def sig_save_subconfig_unserialised(arg, value, default, variant):
+    """multi-file save writes the content of a sub-config file (a value carrying __path__) with strip_meta + as_dict and
+    the raw dumper: the leaves are not serialised"""
+    return variant.get("kind") == "save_subconfig" and arg["type"]["t"] == "dataclass" and value is not None and _nonplain_leaf(value)
+
+
+def sig_json_long_key(arg, value, default, variant):
+    """libyaml's simple-key limit: the JSON literal of a dict key (with its quotes) longer than 1024 characters"""
+    return variant_format(variant) == "json" and any(
+        isinstance(k, str) and len(json.dumps(k, ensure_ascii=False)) > 1024 for k in _dict_keys(value))
+
+
 SIGNATURES = {
+    "C01-save-subconfig-unserialised": sig_save_subconfig_unserialised,
+    "C01-json-long-key": sig_json_long_key,
     "C01-comments-requoted": sig_comments_requoted,
     "C01-comments-float-digits": sig_comments_float_digits,
     "C01-comments-int-key": sig_comments_int_key,
@@ -934,6 +1120,13 @@ def classify(case, variant):
         except Rejected:
             default = None
         ids |= {fid for fid, fn in SIGNATURES.items() if fn(a, value, default, variant)}
+        if variant.get("kind") == "skip_default_history":
+            # in the history the roles are exchanged: the OLD defaults are the dumped values, the values of the case the new defaults
+            try:
+                old_default = p.get_defaults().get(a["name"])
+            except Exception:  # noqa: BLE001
+                old_default = default
+            ids |= {fid for fid, fn in SIGNATURES.items() if fn(a, old_default, value, variant)}
     if not ids:
         return None
     return sorted(ids)[0]
